@@ -32,8 +32,15 @@ def _alarm(*a):
 
 
 def parse_outcome(engine, text, exc):
+    r = _parse_outcome(engine, text, exc, 10.0)
+    if r[0] == 'timeout':
+        r = _parse_outcome(engine, text, exc, 60.0)       # (a busy machine can stall the first watchdog)
+    return r
+
+
+def _parse_outcome(engine, text, exc, timeout):
     signal.signal(signal.SIGALRM, _alarm)
-    signal.setitimer(signal.ITIMER_REAL, 10.0)
+    signal.setitimer(signal.ITIMER_REAL, timeout)
     try:
         engine(text)
         return ('statement', -1)
